@@ -1,0 +1,36 @@
+// Verification hooks.  Compiled only with `--cfg fuse_backend_rs_verif`; never part of a
+// normal build.  `yield_point(id)` is a no-op unless a scheduler callback has been installed.
+
+#![allow(missing_docs)]
+
+use std::sync::{Arc, RwLock};
+
+/// Callback invoked at every yield point with the id of the point.
+pub type YieldFn = dyn Fn(u32) + Send + Sync;
+
+static SCHEDULER: RwLock<Option<Arc<YieldFn>>> = RwLock::new(None);
+
+/// do_lookup: top of the 'search loop, before probing the inode map.
+pub const YP_LOOKUP_BEFORE_PROBE: u32 = 0;
+/// do_lookup: the probe found an entry, before loading its refcount.
+pub const YP_LOOKUP_AFTER_HIT: u32 = 1;
+/// do_lookup: between the refcount load and the compare-exchange.
+pub const YP_LOOKUP_BEFORE_CAS: u32 = 2;
+/// do_lookup: the probe missed, before taking the inode map write lock.
+pub const YP_LOOKUP_BEFORE_WLOCK: u32 = 3;
+/// forget / batch_forget: before taking the inode map write lock.
+pub const YP_FORGET_BEFORE_WLOCK: u32 = 4;
+
+/// Install (or remove, with `None`) the scheduler callback.
+pub fn install_scheduler(f: Option<Arc<YieldFn>>) {
+    *SCHEDULER.write().unwrap() = f;
+}
+
+/// A scheduling point.  Does nothing unless a scheduler is installed.
+#[inline]
+pub fn yield_point(id: u32) {
+    let f = SCHEDULER.read().unwrap().clone();
+    if let Some(f) = f {
+        f(id)
+    }
+}
